@@ -60,7 +60,7 @@ class Error(Exception):
 
 
 def pack(fmt, obj):
-    formatstring, names, fixes = getformat(fmt, keep_pad_byte=True)
+    formatstring, names, fixes = getformat(fmt)
     elements = []
     if not isinstance(obj, dict):
         obj = obj.__dict__
